@@ -148,13 +148,16 @@ fn gen_axis(rng: &mut Rng, len: usize) -> ArcArray1<f64> {
         let mut cur = 0.0f64;
         for i in 0..len {
             v.push(cur);
-            cur += match (i, rng.below(4)) {
+            let step = match (i, rng.below(4)) {
                 (0, 0) => 1e-30,
                 (0, 1) => 1e-20,
                 (0, _) => 1e-12,
                 (_, 0) => 1e15,
                 _ => rng.uniform(0.1, 2.0),
             };
+            // after a few steps of 1e15 an ordinary step is below half an ulp: the axis must stay strictly increasing as f64
+            let next = cur + step;
+            cur = if next > cur { next } else { cur * (1.0 + 4.0 * f64::EPSILON) };
         }
         return Array1::from(v).into_shared();
     }
